@@ -8,10 +8,12 @@
   Property texts: /verif/properties.jsonl.  Reading guide: `step w op = (w', outcome)` is one
   transaction, `outcome.ok` its success flag, `outcome.msgs` the messages it emitted.
 
-  Left out (see the Props files): C05 / C06 / C11 / C17 (per-transaction effect and arithmetic
-  theorems, no state-level conjunct), C14 (registry contract), C15 (fault injection: `stepF`, not
-  `step`), C16 (queries), C18 (a recorded finding about forged hook calls, which `unforged` excludes),
-  C13 "between two switches" (`C13_between_switches_reach`; needs a clock bound on the continuation).
+  Second half: Props/Summary2.lean (`guarantees2_from_deployment : … → TradeGuarantees w0 ops`) states
+  the guarantees of C05, C06, C11, C14, C15, C16, C17 in the same style, and `ForgeGuarantees` what IS
+  true of C18 for histories that contain forged hook calls.  The abstract view (who is entitled to
+  what; every transaction is a stutter, gain, loss or trade) is Props/Entitlement.lean and
+  Props/EntCashout.lean.  Still only in its own file: C13 "between two switches"
+  (`C13_between_switches_reach`; needs a clock bound on the continuation).
 -/
 import Fuzion.Props.C02World
 import Fuzion.Props.C03Closed
